@@ -37,7 +37,7 @@ def gen_C09(rng, tier):
         ms = []
         for i, (n, c) in enumerate(seq):
             if i in consts_at:
-                ms.append(f"const int K{i}={i};")
+                ms.append(f"const int K{i}={i};" if i % 2 else f"const int {n}={i};")     # also a constant named like the method
             ps = params[i] if params else ""
             ms.append(f"void {n}({ps})" + (f"={c}" if c is not None else "") + ";")
         return iface(ms)
@@ -58,6 +58,11 @@ def gen_C09(rng, tier):
         # "overloads": the same name with different parameter lists is still the same name
         params = [rng.choice(PARAMS) for _ in range(L)] if rng.random() < 0.5 else None
         cases.append(nm(f"r{i}", [("f", render(seq, consts, params))]))
+    # a constant named like a method in front of every sequence of length <= 2
+    for L in (1, 2):
+        for seq in itertools.product(alphabet, repeat=L):
+            cases.append(nm(f"cn{k}", [("f", render(seq, consts_at=(0,)))]))
+            k += 1
     # names differing by case only: exhaustive to length 3 over {a, A} x codes
     alpha2 = [(n, c) for n in ("a", "A") for c in (None, "1", "2")]
     for L in (2, 3):
